@@ -128,6 +128,7 @@ type W struct {
 	curInput string
 	curOr    string
 	aborted  bool
+	slow     bool
 }
 
 const outcomeCap = 60000
@@ -204,12 +205,14 @@ func (w *W) EvalMine(oracle, input string) *Fail {
 	if o == nil {
 		panic("no oracle " + oracle + " in " + w.C.ID)
 	}
-	if w.out.Evals&1023 == 0 && time.Now().After(w.deadline) && w.curPhase != nil {
+	if w.curPhase != nil && (w.out.Evals&15 == 0 || w.slow) && time.Now().After(w.deadline) {
 		panic(deadlineHit{})
 	}
+	t0 := time.Now()
 	w.setCur(oracle, input)
 	res := w.safe(o, input)
 	w.curStart.Store(0)
+	w.slow = time.Since(t0) > 5*time.Millisecond // slow oracles get a deadline check on every evaluation
 	w.out.Evals++
 	if w.curPhase != nil {
 		w.curPhase.Evals++
@@ -514,6 +517,10 @@ func RunParent(c *Check, tier string) int {
 			cmd := exec.Command(self, "--worker", fmt.Sprintf("%d/%d", i, n), "--tier", tier, "--deadline", strconv.FormatInt(deadline.UnixNano(), 10), "--seed", strconv.FormatInt(seed, 10), c.ID)
 			var stdout, stderr strings.Builder
 			cmd.Stdout, cmd.Stderr = &stdout, &stderr
+			// one worker process per core: keep each worker's Go scheduler/GC from spreading over all cores
+			if os.Getenv("GOMAXPROCS") == "" {
+				cmd.Env = append(os.Environ(), "GOMAXPROCS=2")
+			}
 			err := cmd.Run()
 			var wo WorkerOut
 			if err == nil {
